@@ -38,6 +38,15 @@ CHECKS = {
         "Trusted: CPython int/Fraction, Hypothesis, the documented ranges hard-coded in checks/c03.py.",
         "DESIGN.md §2 C03",
     ),
+    "C10": (
+        "exploration",
+        "Hypothesis property-based testing against an int model of the local timeline + enumerated minute-boundary grid",
+        "Generated (time, unit, amount) and (calendar, day, time, unit/period) cases, amounts biased to multiples of "
+        "units-per-day +/-1 and far beyond 64 bits; results compared with (day*24h + ns) int arithmetic, raise iff the "
+        "calendar range is left; accessor decomposition enumerated on the 4320-point minute-boundary grid.",
+        "Trusted: CPython ints; day<->date bijection (C01) for rendering the expected date.",
+        "DESIGN.md §2 C10",
+    ),
 }
 
 NOT_YET = {}
